@@ -90,7 +90,7 @@ claim("C15",
 claim("C16",
       "Bounded, rule tables transcribed from zlib.h / the vendored zlib-ng source: argument validation and status of inflatePrime, "
       "inflateSync, inflateSyncPoint, inflateValidate, inflateUndermine, inflateMark, inflateGetHeader, inflateResetKeep/Reset2 (every "
-      "i32 windowBits), inflateSetDictionary, inflateResetKeep (zlib-ng's rule table from any state), deflateSetDictionary (which bytes are loaded: the last w_size for a dictionary of w_size or more), deflateGetDictionary (length and bytes incl. the look-ahead), deflatePrime (every bits/value), deflateParams (every level), deflateTune, deflateSetHeader, "
+      "i32 windowBits), inflateSetDictionary, deflatePrime (every bits/value), deflateParams (every level), deflateTune, deflateSetHeader, "
       "deflatePending; none of them can abort.",
       "The oracle is my transcription of the rules (trusted base). Outside: data-movement equality with zlib-ng, multi-call programs, the "
       "libz-rs-sys NULL-pointer wrappers (thin, exercised by the pinned null.rs tests).")
